@@ -110,7 +110,36 @@ def intern_eq(repo, res, rule="INTERN-EQ"):
             res.check(ok, rule, f"{rule}:subdfa-identity-is-structural", "interned value = " + " <- ".join(sp[:4]) + ("" if ok else ": two within-word automata with the same language but a different symbol order or state numbering are distinct symbols"), f2.loc())
 
 
+def intern_dedup(repo, res, rule="INTERN-DEDUP"):
+    """`count as one expectation`: two occurrences of the same within-word expression (or symbol) must get ONE id.  Each
+    pool's intern() must look the value up before adding it: insert_full on an IndexSet (returns the existing index),
+    entry().or_insert_with, or get_index_of + push.  A pool that merely appends gives every occurrence its own symbol."""
+    n = 0
+    for q, f in sorted(repo.fns.items()):
+        if not q.endswith("InternPool::intern"):
+            continue
+        n += 1
+        ms = [x["method"] for x in A.walk(f.body) if x["k"] == "MethodCall"]
+        dedup = ("insert_full" in ms) or ("entry" in ms and ("or_insert_with" in ms or "or_insert" in ms)) or ("get_index_of" in ms) or ("get" in ms and "insert" in ms)
+        # the store behind insert_full must be a set keyed by the value (IndexSet), not a Vec
+        st = None
+        if f.self_ty:
+            sd = repo.struct(f.self_ty.split("<")[0])
+            if sd:
+                st = {fl["name"]: A.norm_ty(fl["ty"]) for fl in sd["fields"]}
+        store_ok = True
+        if "insert_full" in ms and st is not None:
+            store_ok = any(t.startswith(("IndexSet<", "indexmap::IndexSet<", "IndexMap<")) for t in st.values())
+        res.check(dedup and store_ok, rule, f"{rule}:{q}", f"methods {sorted(set(ms))}; fields {st}" + ("" if dedup and store_ok else ": intern() does not find an equal value that is already in the pool -- equal items get different ids and therefore separate transitions"), f.loc())
+    res.floor(rule, n, 4)
+
+
 def run(repo, res, tier):
+    intern_dedup(repo, res)
+    from . import common
+    # `||` behaves like `|` when matching: every pass over the expression treats a Fallback node exactly as it treats an
+    # Alternative (both children lists traversed); the one tabled difference is the level assignment
+    common.run_traversals(repo, res, enum="Expr", rp=False)
     eqfields(repo, res)
     coarse(repo, res)
     intern_eq(repo, res)
